@@ -143,3 +143,38 @@ func decodeEmbedded(parts []string) (map[string]any, []byte, error) {
 	}
 	return out, raw, nil
 }
+
+// declNames returns the sorted names of everything the file declares at top level: types, constants, variables,
+// functions, and methods as Receiver.Name.
+func (p *parsed) declNames() []string {
+	var out []string
+	for _, d := range p.file.Decls {
+		switch x := d.(type) {
+		case *ast.GenDecl:
+			for _, s := range x.Specs {
+				switch y := s.(type) {
+				case *ast.TypeSpec:
+					out = append(out, "type "+y.Name.Name)
+				case *ast.ValueSpec:
+					for _, n := range y.Names {
+						out = append(out, strings.ToLower(x.Tok.String())+" "+n.Name)
+					}
+				}
+			}
+		case *ast.FuncDecl:
+			name := x.Name.Name
+			if x.Recv != nil && len(x.Recv.List) == 1 {
+				t := x.Recv.List[0].Type
+				if st, ok := t.(*ast.StarExpr); ok {
+					t = st.X
+				}
+				if id, ok := t.(*ast.Ident); ok {
+					name = id.Name + "." + name
+				}
+			}
+			out = append(out, "func "+name)
+		}
+	}
+	sort.Strings(out)
+	return out
+}
